@@ -2,7 +2,7 @@
 import json
 import os
 
-from .. import common, extract, flow, guards, paths, writes
+from .. import common, extract, flow, guards, paths, writes, inline
 from ..facts import callee_def, short
 from ..model import NS, T as ST, field_key, load_model, OUTPUT_SHAPE_ALIAS
 from ..report import AnchorMissing
@@ -491,7 +491,7 @@ def rule_r6(chk, db):
 
 def rule_r7(chk, db):
     """event pump totality"""
-    b = db.body(DE + "Deserializer::<'xml>::read_event")
+    b = inline.inlined(db, db.body(DE + "Deserializer::<'xml>::read_event"))
     if b is None:
         raise AnchorMissing("Deserializer::read_event not found")
     arms = None
@@ -523,7 +523,7 @@ def rule_r7(chk, db):
                     "quick-xml `%s` events (character data) are skipped by the event pump: `<Key><![CDATA[abc]]></Key>` decodes as the empty string" % v if v == "CData" else
                     "quick-xml `%s` events (character data) are skipped by the event pump" % v)
     # expect_end: a Text event may be skipped only after its content was inspected
-    e = db.body(DE + "Deserializer::<'xml>::expect_end")
+    e = inline.inlined(db, db.body(DE + "Deserializer::<'xml>::expect_end"))
     if e is None:
         chk.anchor_missing("R7", "expect_end not found")
         return
@@ -555,7 +555,7 @@ def rule_r7(chk, db):
                         if not used:
                             skipped_uninspected = True
     # ... unless the leaf text reader itself gathers every consecutive Text event before the end tag is expected
-    tx = db.body(DE + "Deserializer::<'xml>::text")
+    tx = inline.inlined(db, db.body(DE + "Deserializer::<'xml>::text"))
     merges = False
     if tx is not None:
         from .c08 import natural_loops
